@@ -20,7 +20,7 @@ conv_prop("C03", ["c03", "conv"], "c03: command histories over a 35-symbol alpha
 conv_prop("C05", ["c05", "conv"], "c05: chunkings {1 chunk, empty first chunk, 3/0/4, 1/1/1, 5+rest, empty} x LAST placement {on last chunk, on an extra empty chunk, none} x payloads {CRLF.CRLF, command look-alikes, NUL/8-bit, 100 LF-free octets with line limit 60, QUIT, text} x states {ok, no MAIL, all RCPT rejected, bad LAST token, over the size limit, LMTP, LMTP per-recipient} x segmentations. Oracle: message octets = concatenated payloads with EOF only after LAST, no payload line executed, marker command executed, reply codes.")
 conv_prop("C06", ["c06", "dr"], "c06: limits N x message sizes N-2..N+2 and 10N x DATA (3 read sizes) and all chunkings into <= 3 BDAT chunks x {SMTP, LMTP}; SIZE= values around N, 2^32, 2^63-1, 2^63 and beyond. Oracle: the backend never sees more than N octets, <= N accepted exactly, > N answered 552 with the first N octets, SIZE > N refused without Mail.")
 conv_prop("C07", ["c07", "dr"], "c07: every byte offset of the message part of DATA and BDAT conversations (SMTP, LMTP, LMTP per-recipient) as cut point x {EOF, timeout, error} x {one segment, byte-wise}; abandoning commands between chunks. Oracle: no reader ever reports EOF, no positive final reply.")
-conv_prop("C08", ["c08", "conv"], "c08: every byte offset of 3 conversations (DATA, BDAT+re-EHLO+RSET, AUTH+out-of-order BDAT) as cut point x {EOF, timeout, error} x {SMTP, LMTP}; every server-initiated close reason {QUIT, 4 bad commands, too long line, idle timeout, backend panic, QUIT inside a chunked transfer} x buffered suffixes x segmentations. Oracle: one Logout per session, no callback/no new session after a closing reply, no command executed from the suffix, no go-smtp goroutine left.")
+conv_prop("C08", ["c08", "conv"], "c08: every byte offset of 3 conversations (DATA, BDAT+re-EHLO+RSET, AUTH+out-of-order BDAT) as cut point x {EOF, timeout, error} x {SMTP, LMTP}; every server-initiated close reason {QUIT, 4 bad commands, too long line, idle timeout, backend panic, QUIT inside a chunked transfer} x buffered suffixes x segmentations; Server.Close() called by the application from another goroutine while the connection is inside a backend callback {NewSession, Mail (1st, 2nd), Rcpt (1st, 2nd), Data before / after reading the message, Reset (RSET, repeated EHLO), sasl Next}, the whole conversation delivered in ONE raw read so that everything behind is already buffered, x 10 buffered suffixes (RCPT; RCPT DATA message QUIT; DATA message; RSET MAIL RCPT DATA message; EHLO MAIL QUIT; MAIL RCPT; NOOP QUIT; AUTH MAIL; BDAT LAST; nothing) x {SMTP, LMTP, LMTP with LMTPSession} (tag server-close-in-callback; the event (srvclose) is logged when Close has returned). Oracle: one Logout per session, no callback/no new session after a closing reply or after Server.Close has returned, no command executed from the suffix, no go-smtp goroutine left.")
 conv_prop("C19", ["c19", "conv"], "c19: line lengths L-3..L+5 for L in {60,120,500} at 3 positions x 3 verbs x 5 segmentations (incl. a split inside the line); endless lines; mixes of valid/invalid commands around the error threshold; all strings up to length 3 (4 thorough) over {NUL,CR,LF,SP,A,:,<,0xFF,U+017F} as command lines; random binary lines after command prefixes. Oracle: no recovered panic, a line > L+1 octets answered 500 and closed with no callback from it or after it, a line <= L never refused, 4th protocol error closes.")
 conv_prop("C04", ["conv", "c03", "reply"], "conv: grammar-derived mixed conversations under 5 segmentation disciplines (one segment = fully pipelined, per line = lock step, random, byte-wise); c03: command histories. Oracle: the final reply after a Data call reports that call's verdict; replies compared octet for octet with the model, whose reply groups are proved one per command.")
 PROPS["C17"] = {
@@ -51,7 +51,7 @@ PROPS["C12"]["trusted_base"] = CONV_TB + TLS_TB
 
 PROPS["C20"] = {
     "kinds": ["life"],
-    "rule": "life: the REAL smtp.Server driven by a scripted net.Listener (connection / temporary net.Error / permanent error per Accept) and scripted Close / Shutdown(ctx) / peer-disconnect / ctx-expiry events; every op sequence over the 10-letter alphabet {conn, temp, perm, close, shutdown, finish 0, finish 1, expire, wclose, wshutdown} up to length 3 (thorough: 4), seeded random scripts of length 4-9, and the back-off cap (10 temporary errors: 5..640,1000,1000 ms). wclose / wshutdown are Close / Shutdown with a connection in the window between Accept's return and its handler's registration in s.conns, forced deterministically: the scripted listener's Close (called by the server under s.locker, after s.done is closed) hands the connection to the pending Accept and returns when Serve has spawned the handler (tag accept-window). Recorded: what Serve/Close/Shutdown returned, which connections the server closed, the measured back-off delays. Compared with ServerLife.v (CheckLife.check_life) and judged against the property text on the recorded behaviour alone (monitor mon_step/mon_final). The data-race half is not case based: tools/accesses regenerates coq/gen/Accesses.v from /repo and LocksetInst.conn_races_exactly is re-proved by vm_compute on every run.",
+    "rule": "life: the REAL smtp.Server driven by a scripted net.Listener (connection / temporary net.Error / permanent error per Accept) and scripted Close / Shutdown(ctx) / peer-disconnect / ctx-expiry events; every op sequence over the 10-letter alphabet {conn, temp, perm, close, shutdown, finish 0, finish 1, expire, wclose, wshutdown} up to length 3 (thorough: 4), seeded random scripts of length 4-9, and the back-off cap (10 temporary errors: 5..640,1000,1000 ms). wclose / wshutdown are Close / Shutdown with a connection in the window between Accept's return and its handler's registration in s.conns, forced deterministically: the scripted listener's Close (called by the server under s.locker, after s.done is closed) hands the connection to the pending Accept and returns when Serve has spawned the handler (tag accept-window). A listener whose Close RETURNS AN ERROR (the first time / every time; tag listener-close-fails) is scripted for Close, Shutdown, wclose and wshutdown over 10 connection situations (none, registered, several, finished, mixed, after temporary errors, Serve already gone after a permanent Accept error) x 9 continuations (second calls, peers finishing in both orders, ctx expiry, a late accept), every op sequence up to length 2 (thorough: 3) and seeded random scripts: Close must return that error AND have closed every registered connection, Shutdown must block while a connection is active and return the error when the last one has finished. Recorded: what Serve/Close/Shutdown returned, which connections the server closed, the measured back-off delays. Compared with ServerLife.v (CheckLife.check_life) and judged against the property text on the recorded behaviour alone (monitor mon_step/mon_final). The data-race half is not case based: tools/accesses regenerates coq/gen/Accesses.v from /repo and LocksetInst.conn_races_exactly is re-proved by vm_compute on every run.",
     "trusted_base": [
         "tools/accesses (syntactic go/ast translator: field accesses, c.locker regions, calls, go literals, joins); it exits non-zero on any construct it cannot classify",
         "flattening of control flow: a function body is the sequence of ALL its accesses in source order (every branch, loop bodies once, deferred calls last); every real path's accesses are a subsequence with the same lock status",
